@@ -69,6 +69,35 @@ def gen_spec(r, name, depth, required):
     return spec
 
 
+def only(r, name, keep, required):
+    """a spec of schema `name` with the fields of `keep` set as given, required fields filled, everything else unset"""
+    spec = {}
+    for p, t in ps.flat_fields(name):
+        if p in keep:
+            spec[p] = keep[p]
+        elif t.startswith("sub:"):
+            spec[p] = ["sub", gen_spec(r, t[4:], 3, required)] if p in required.get(name, ()) else ["none"]
+        elif t == "enum0":
+            spec[p] = ["val", 0]
+        elif t == "list":
+            spec[p] = ["falsy"]
+        else:
+            spec[p] = ["val", r.randrange(1 << 20)] if p in required.get(name, ()) else ["none"]
+    return spec
+
+
+def quote_chain(r, k, required, carrier="extendedtext"):
+    """a message that quotes a message that quotes ... k levels deep (a reply to a reply to ...); the innermost one is a plain text"""
+    if k == 0:
+        return only(r, "message", {"conversation": ["val", r.randrange(1 << 20)]}, required)
+    ctx = only(r, "contextinfo", {"stanza_id": ["val", r.randrange(1 << 20)], "quoted_message": ["sub", quote_chain(r, k - 1, required, carrier)]}, required)
+    if carrier == "image":
+        inner = only(r, "image", {"dl.context_info": ["sub", ctx], "caption": ["val", r.randrange(1 << 20)]}, required)
+        return only(r, "message", {"image": ["sub", inner]}, required)
+    inner = only(r, "extendedtext", {"text": ["val", r.randrange(1 << 20)], "context_info": ["sub", ctx]}, required)
+    return only(r, "message", {"extended_text": ["sub", inner]}, required)
+
+
 def build_obj(name, spec):
     import random
     vals = {}
@@ -148,6 +177,10 @@ def cases(chk):
                 else:
                     spec[p] = ["falsy"]
             yield "object", {"schema": name, "spec": spec}
+    # replies to replies to replies ...: quoted messages nested 1..8 deep (the converter recurses through context_info.quoted_message)
+    for k in (1, 2, 3, 4, 5, 8):
+        for carrier in ("extendedtext", "image"):
+            yield "object", {"schema": "message", "spec": quote_chain(r, k, req, carrier)}
     for _ in range(chk.scale(4000, 80000)):
         name = r.choice(names + ["message", "message", "contextinfo"])
         yield "object", {"schema": name, "spec": gen_spec(r, name, 0, req)}
